@@ -3,6 +3,9 @@ import Frp.Model.Crash
 import Frp.Gen.LockFacts
 import Frp.Gen.NilFacts
 import Frp.Gen.MsgSchema
+import Frp.Model.LockOrder
+import Frp.Gen.LockOrder
+import Frp.Lemmas.RegCtl
 /-
   C16 — No input or interleaving crashes or wedges frps or frpc (partial).
 
@@ -21,11 +24,24 @@ import Frp.Gen.MsgSchema
        interleaving of offers with the worker's closing steps kills frps; without it one does, whatever
        is tested up front.
 
-  Three places where the code as it is in /repo violates the property are kept visible, each behind a
+  Added (strengthening round 3) — WEDGES, the other half of the property:
+   5. lock ORDER (REGENERATED Gen/LockOrder.lean): the graph "mutex b is acquired while mutex a is held" over all
+      mutexes of client/ pkg/ server/ — acquisitions through calls included — has no cycle and no self-loop, no
+      function locks an expression it holds;
+   6. RegisterControl: every control that enters the table is started (regenerated: no `return` between Add and
+      Start), hence from every reachable state of any chain of overlapping logins with one run id every login is
+      answered and every control closes; a control that is skipped when superseded wedges the run id for ever;
+   7. (client) StartWorkConn addresses: an address that does not resolve reaches go-proxyproto as a typed nil and
+      kills frpc when the proxy has a proxyProtocolVersion (known finding, switch `Crash.startWorkAddrIsFixed`).
+
+  Places where the code as it is in /repo violates the property are kept visible, each behind a
   switch that the integrator flips when the corresponding fix commit lands:
    * `precheckLockIsFixed`         — nathole.Controller.HandleVisitor reads clientCfgs without the mutex (§7 #6)
    * `Crash.poolCountIsFixed`      — Login.PoolCount < -10 ⇒ make(chan, negative) (§7 #4)
    * `Crash.discoverIsFixed`       — discoverConn.readLoop sends on a channel that Close closes (new)
+   * `Crash.startWorkAddrIsFixed`  — HandleTCPWorkConnection discards the error of net.ResolveTCPAddr (new, round 3)
+   * `Crash.udpForwardSendIsFixed` — ForwardUserConn hands a datagram over with a plain send on a channel that the udp
+                                     proxy's Close closes (new, round 3; found by the storms)
 -/
 namespace Frp
 namespace C16
@@ -201,10 +217,19 @@ def sendOwners : List (String × String × String) :=
     ("pkg/util/net/kcp.go", "ListenKcp", "l.acceptCh"),                        -- the accept goroutine closes, then returns
     ("pkg/util/net/udp.go", "ListenUDP", "l.acceptCh") ]
 
-/-- new finding: the reader goroutine's plain send races with (and, when blocked on the full buffer,
+/-- finding (round 1): the reader goroutine's plain send races with (and, when blocked on the full buffer,
     deterministically loses against) the `close(c.messageChan)` of the deferred Close -/
 def sendExc : String × String × String :=
   ("pkg/nathole/discovery.go", "discoverConn.readLoop", "c.messageChan")
+
+/-- finding (round 3): the reader of a udp proxy's user socket hands a datagram over with a plain send on the
+    channel its caller closes (server/proxy/udp.go UDPProxy.Close, client/visitor/sudp.go SUDPVisitor.Close) -/
+def sendExcUdp : String × String × String :=
+  ("pkg/proto/udp/udp.go", "ForwardUserConn", "sendCh")
+
+/-- the unguarded sends expected on this tree, by switch -/
+def sendExcs : List (String × String × String) :=
+  (if discoverIsFixed then [] else [sendExc]) ++ (if udpForwardSendIsFixed then [] else [sendExcUdp])
 
 def ClosesOk : Prop := ∀ c ∈ closes, c.okWith closeOwners = true
 def SendsOkFull : Prop := ∀ s ∈ sends, s.okWith sendOwners = true
@@ -215,13 +240,18 @@ instance : Decidable SendsOkFull := by unfold SendsOkFull; infer_instance
 theorem closes_guarded : ∀ c ∈ closes, c.okWith closeOwners = true := by
   decide +kernel
 
-theorem sends_guarded_partial : ∀ s ∈ sends, s.okWith sendOwners = true ∨ s.site = sendExc := by
+theorem sends_guarded_partial : ∀ s ∈ sends, s.okWith sendOwners = true ∨ s.site = sendExc ∨ s.site = sendExcUdp := by
   decide +kernel
 
-theorem sends_guarded_status : SendsOkFull ↔ discoverIsFixed = true := by
+/-- exactly which sends are neither recover-wrapped nor same-goroutine on this tree -/
+theorem sends_unguarded_exact :
+    ((sends.filter (fun s => !s.okWith sendOwners)).map SendSite.site) = sendExcs := by
   decide +kernel
 
-theorem sends_guarded (h : discoverIsFixed = true) : ∀ s ∈ sends, s.okWith sendOwners = true :=
+theorem sends_guarded_status : SendsOkFull ↔ (discoverIsFixed = true ∧ udpForwardSendIsFixed = true) := by
+  decide +kernel
+
+theorem sends_guarded (h : discoverIsFixed = true ∧ udpForwardSendIsFixed = true) : ∀ s ∈ sends, s.okWith sendOwners = true :=
   sends_guarded_status.mpr h
 
 /-- the sites the property text names are there, with the guard the code has -/
@@ -245,7 +275,10 @@ theorem channel_sites_present :
     (sends.map (fun s => (s.site, s.guard))).contains
         (("pkg/util/net/listener.go", "InternalListener.PutConn", "l.acceptCh"), SendGuard.panicToError) = true ∧
     (sends.map (fun s => (s.site, s.guard))).contains
-        (("pkg/transport/message.go", "transporterImpl.DispatchWithType", "ch"), SendGuard.panicToError) = true := by
+        (("pkg/transport/message.go", "transporterImpl.DispatchWithType", "ch"), SendGuard.panicToError) = true ∧
+    (sends.map (fun s => (s.site, s.guard))).contains
+        (("pkg/proto/udp/udp.go", "Forwarder", "sendCh"), SendGuard.panicToError) = true ∧
+    (sends.map SendSite.site).contains sendExcUdp = true := by
   decide +kernel
 
 /-! ## 2. Message-derived numbers are validated before they size an allocation (NewControl) -/
@@ -765,6 +798,92 @@ theorem teardown_safe_as_is (doneCheck : Bool) (ls : List TLabel) (c : Ctl) :
     (trun ⟨regRecover, doneCheck⟩ c ls).2 = .alive :=
   teardown_offer_safe ⟨regRecover, doneCheck⟩ register_recover_fact ls c
 
+/-! ## 3f. the reader of a udp proxy's user socket against the proxy's Close -/
+
+theorem fstep_recovered_alive (f : Fwd) (l : FLabel) : (fstep true (f, .alive) l).2 = .alive := by
+  cases l <;> simp only [fstep] <;> (repeat' split) <;> first | rfl | (exfalso; simp_all)
+
+/-- ALL interleavings of datagrams with the two closing steps: with the recover-wrapped send nothing dies -/
+theorem forward_send_recovered_safe : ∀ (ls : List FLabel) (f : Fwd), (frun true f ls).2 = .alive := by
+  intro ls
+  unfold frun
+  induction ls with
+  | nil => intro f; rfl
+  | cons l rest ih =>
+    intro f
+    simp only [List.foldl_cons]
+    have h1 := fstep_recovered_alive f l
+    have h2 : fstep true (f, .alive) l = ((fstep true (f, .alive) l).1, .alive) := Prod.ext rfl h1
+    rw [h2]
+    exact ih _
+
+/-- as the code is: a datagram read before the socket is closed and handed over after the channel is closed kills
+    the process — whatever else happens in between or afterwards -/
+theorem forward_send_unrecovered_dies (pre post : List FLabel) (f : Fwd)
+    (hf : f.running = true ∧ f.inHand = false ∧ f.sockOpen = true)
+    (hpre : ∀ l ∈ pre, l = .closeSock ∨ l = .closeCh) :
+    (frun false f ([.recv] ++ pre ++ [.closeCh, .send] ++ post)).2 = .processDies := by
+  have hstay : ∀ (ls : List FLabel) (st : Fwd × Outcome), st.2 = .processDies →
+      (ls.foldl (fstep false) st).2 = .processDies := by
+    intro ls
+    induction ls with
+    | nil => intro st h; exact h
+    | cons l rest ih =>
+      intro st h
+      simp only [List.foldl_cons]
+      apply ih
+      cases l <;> simp only [fstep] <;> (repeat' split) <;> first | exact h | rfl
+  have hmid : ∀ (ls : List FLabel) (st : Fwd × Outcome), (∀ l ∈ ls, l = .closeSock ∨ l = .closeCh) →
+      st.1.running = true → st.1.inHand = true → st.2 = .alive →
+      let r := ls.foldl (fstep false) st
+      r.1.running = true ∧ r.1.inHand = true ∧ r.2 = .alive := by
+    intro ls
+    induction ls with
+    | nil => intro st _ h1 h2 h3; exact ⟨h1, h2, h3⟩
+    | cons l rest ih =>
+      intro st h h1 h2 h3
+      simp only [List.foldl_cons]
+      apply ih
+      · exact fun l' hl' => h l' (List.mem_cons_of_mem _ hl')
+      · rcases h l (List.mem_cons_self ..) with rfl | rfl <;> exact h1
+      · rcases h l (List.mem_cons_self ..) with rfl | rfl <;> exact h2
+      · rcases h l (List.mem_cons_self ..) with rfl | rfl <;> exact h3
+  unfold frun
+  rw [List.foldl_append, List.foldl_append, List.foldl_append]
+  apply hstay
+  have h0 : List.foldl (fstep false) (f, Outcome.alive) [FLabel.recv] = ({ f with inHand := true }, .alive) := by
+    simp [fstep, hf.1, hf.2.1, hf.2.2]
+  rw [h0]
+  have hm := hmid pre ({ f with inHand := true }, .alive) hpre hf.1 rfl rfl
+  generalize List.foldl (fstep false) ({ f with inHand := true }, Outcome.alive) pre = st at hm
+  obtain ⟨c, o⟩ := st
+  simp only at hm
+  simp [fstep, hm.1, hm.2.1, hm.2.2]
+
+theorem forward_send_witness : (frun false {} [.recv, .closeSock, .closeCh, .send]).2 = .processDies ∧
+    (frun true {} [.recv, .closeSock, .closeCh, .send, .recv]) = ({ sockOpen := false, chOpen := false, inHand := false, running := false }, .alive) ∧
+    (frun false {} [.closeSock, .closeCh, .recv, .send]).2 = .alive := by
+  decide
+
+/-- how the hand-over IS written, from the regenerated channel facts -/
+def udpForwardRecovered : Bool :=
+  (sends.map (fun s => (s.site, s.guard))).contains (sendExcUdp, SendGuard.panicToError)
+
+theorem forward_send_fact : udpForwardRecovered = udpForwardSendIsFixed := by
+  decide +kernel
+
+/-- the statement for the tree as selected by the switch -/
+theorem forward_send_status :
+    (∀ (ls : List FLabel) (f : Fwd), (frun udpForwardSendIsFixed f ls).2 = .alive) ↔ udpForwardSendIsFixed = true := by
+  cases h : udpForwardSendIsFixed
+  · simp only [Bool.false_eq_true, iff_false]
+    intro hall
+    have := hall [.recv, .closeSock, .closeCh, .send] {}
+    revert this
+    decide
+  · simp only [iff_true]
+    exact forward_send_recovered_safe
+
 /-! ## 3c. discoverConn (client side) -/
 
 theorem discover_safe_partial {sent reqs : Nat} (h : sent ≤ reqs + discoverBuf) :
@@ -777,6 +896,199 @@ theorem discover_safe_partial {sent reqs : Nat} (h : sent ≤ reqs + discoverBuf
 theorem discover_witness : discoverMayDie false 12 1 = true := by decide
 
 theorem discover_fixed (sent reqs : Nat) : discoverMayDie true sent reqs = false := rfl
+
+/-! ## 5. Lock order: no cycle, no self-deadlock (facts regenerated by translate/gen_lockorder.go) -/
+
+section lockorder
+open LockOrd
+open Frp.Gen.LockOrder
+
+/-- every "b acquired while a is held" goes forward in the emitted order — self-loops cannot -/
+theorem lock_order_respected : respects order edges = true := by
+  decide +kernel
+
+/-- no chain of goroutines, each holding a mutex and waiting for the next one's, closes into a cycle;
+    in particular no call path re-acquires (at the level of the declared mutex) what it holds -/
+theorem lock_order_acyclic (m : String) : ¬ Path edges m m :=
+  no_cycle lock_order_respected m
+
+/-- no function locks a lock expression it already holds, and every lock call was named -/
+theorem no_relock : relocks = [] ∧ unresolved = [] := by
+  decide +kernel
+
+/-- a cycle defeats EVERY order: the check cannot be satisfied by a clever witness -/
+theorem cycle_defeats_order {es : List Edge} {a : String} (p : Path es a a) (ord : List String) :
+    respects ord es = false := by
+  cases h : respects ord es with
+  | false => rfl
+  | true => exact absurd p (no_cycle h a)
+
+/-- what a leave that takes the group lock before the controller lock amounts to (one reversed edge):
+    no order exists any more -/
+theorem reversed_edge_witness (ord : List String) :
+    respects ord (⟨"server/group.TCPMuxGroup.mu", "server/group.TCPMuxGroupCtl.mu", "server/group/tcpmux.go",
+                    "TCPMuxGroup.CloseListener", 0, "call TCPMuxGroupCtl.RemoveGroup"⟩ :: edges) = false := by
+  apply cycle_defeats_order (a := "server/group.TCPMuxGroup.mu")
+  refine .cons ⟨_, List.mem_cons_self .., rfl, rfl⟩ (.one ?_)
+  have h : (edges.map Edge.pair).contains ("server/group.TCPMuxGroupCtl.mu", "server/group.TCPMuxGroup.mu") = true := by
+    decide +kernel
+  rcases List.mem_map.mp (List.contains_iff_mem.mp h) with ⟨e, he, hp⟩
+  refine ⟨e, List.mem_cons_of_mem _ he, ?_, ?_⟩
+  · exact congrArg Prod.fst hp
+  · exact congrArg Prod.snd hp
+
+/-- … and a callee that takes the controller lock under the controller lock (a self-loop) -/
+theorem self_loop_witness (ord : List String) :
+    respects ord (⟨"server/group.TCPGroupCtl.mu", "server/group.TCPGroupCtl.mu", "server/group/tcp.go",
+                    "TCPGroupCtl.Listen", 0, "call TCPGroup.Listen"⟩ :: edges) = false :=
+  cycle_defeats_order (.one ⟨_, List.mem_cons_self .., rfl, rfl⟩) ord
+
+/-- the extractor is not blind: the mutexes and the nestings the code is known to have are there -/
+theorem lock_sites_present :
+    120 ≤ lockSites ∧ 35 ≤ mutexes.length ∧ order.length = mutexes.length ∧
+    (mutexes.all (fun m => order.contains m)) = true ∧
+    [ ("server/group.TCPGroupCtl.mu", "server/group.TCPGroup.mu"),
+      ("server/group.TCPGroup.mu", "server/ports.Manager.mu"),
+      ("server/group.TCPMuxGroupCtl.mu", "server/group.TCPMuxGroup.mu"),
+      ("server/group.TCPMuxGroup.mu", "pkg/util/vhost.Routers.mutex"),
+      ("server/group.HTTPGroupController.mu", "server/group.HTTPGroup.mu"),
+      ("server/group.HTTPGroup.mu", "pkg/util/vhost.Routers.mutex"),
+      ("server.Control.mu", "server/proxy.Manager.mu"),
+      ("client/proxy.Manager.mu", "client/proxy.Wrapper.mu"),
+      ("client.Service.ctlMu", "client/proxy.Manager.mu")
+    ].all (fun p => (edges.map Edge.pair).contains p) = true ∧
+    [ "server.ControlManager.mu", "server.Control.mu", "pkg/nathole.Controller.mu", "pkg/transport.transporterImpl.mu",
+      "server/visitor.Manager.mu", "server/ports.Manager.mu", "pkg/util/vhost.Routers.mutex", "client/visitor.Manager.mu"
+    ].all (fun m => mutexes.contains m) = true := by
+  decide +kernel
+
+end lockorder
+
+/-! ## 6. RegisterControl: every control that enters the table is started or closed -/
+
+section regctl
+open RegCtl
+open Frp.Gen.LockOrder
+
+/-- how RegisterControl IS written, from the regenerated fact: no way from `ctlManager.Add` around `ctl.Start()` -/
+def startAlways : Bool := decide (regCtlReturnsBeforeStart = 0)
+
+/-- the statements between Add and Start as they are in /repo (the model's `proceed` is this code) -/
+theorem register_control_fact :
+    regCtlReturnsBeforeStart = 0 ∧ startAlways = true ∧
+    regCtlBetween =
+      ["if oldCtl := svr.ctlManager.Add(loginMsg.RunID, ctl); oldCtl != nil { verifhook.At(\"ctl.beforeWait\", loginMsg.RunID, loginMsg.Hostname) oldCtl.WaitClosed() }",
+       "verifhook.At(\"ctl.beforeStart\", loginMsg.RunID, loginMsg.Hostname)"] := by
+  decide +kernel
+
+/-- ALL chains of overlapping logins with one run id, all interleavings of the RegisterControl goroutines, the
+    workers, the connection drops and the table removals: from every reachable state, once every peer has hung up
+    and every goroutine has run, every login HAS BEEN ANSWERED and every control has closed its doneCh — no
+    reachable state is a wedge -/
+theorem every_login_answered (ls : List Label) :
+    settled (run startAlways (run startAlways {} ls) (drain (run startAlways {} ls))) = true := by
+  rw [register_control_fact.2.1]
+  exact relogin_never_wedged ls
+
+/-- a control only ever waits for an OLDER control (the wait-for relation of RegisterControl is well-founded) -/
+theorem control_waits_on_older (b : Bool) (ls : List Label) (k j : Nat) (c : RegCtl.Ctl) :
+    (run b {} ls).ctls[k]? = some c → c.stat = .waiting (some j) → j < k :=
+  waits_on_older b ls k j c
+
+/-- as the code is, no control is ever left in the table without having been started -/
+theorem no_control_abandoned (ls : List Label) (k : Nat) (c : RegCtl.Ctl) :
+    (run startAlways {} ls).ctls[k]? = some c → c.stat ≠ .abandoned := by
+  rw [register_control_fact.2.1]
+  exact startAlways_never_abandons ls k c
+
+/-- the other way of writing it — a control that finds itself superseded after the wait returns without Start —
+    wedges the run id FOR EVER after three overlapping logins: login 2 and every later login with that run id is
+    never answered, whatever happens afterwards -/
+theorem superseded_skip_wedges_forever (ls : List Label) (k : Nat) (c : RegCtl.Ctl) :
+    2 ≤ k → (run false {} (wedgeWitness ++ ls)).ctls[k]? = some c → c.answered = false :=
+  superseded_skip_wedges ls k c
+
+theorem superseded_skip_witness :
+    (run false {} wedgeWitness).ctls.map RegCtl.Ctl.stat = [.closed, .abandoned, .waiting (some 1)] ∧
+    (run true {} wedgeWitness).ctls.map RegCtl.Ctl.stat = [.closed, .started, .waiting (some 1)] := by
+  decide
+
+/-- with NOBODY hanging up: once the goroutines have run, every login of every reachable state is answered (the
+    connections of superseded controls are closed by the server itself: Replaced) -/
+theorem every_login_answered_unattended (ls : List Label) (i : Nat) (c : RegCtl.Ctl) :
+    (run startAlways (run startAlways {} ls) (settleFrom 0 (run startAlways {} ls).ctls.length)).ctls[i]? = some c →
+    c.answered = true := by
+  rw [register_control_fact.2.1]
+  exact settle_answers_all ls i c
+
+/-- the schedules the engine op `relogin` forces — any number of overlapping logins, any release order: the last
+    login, which nobody superseded, gets its LoginResp (the model's answer to every `relogin` op is `done`) … -/
+theorem relogin_op_answered (k : Nat) (order : List Nat) :
+    lastAnswered (run startAlways {} (reloginSchedule k order)) = true := by
+  rw [register_control_fact.2.1]
+  exact relogin_schedule_answered k order
+
+/-- … and with the skipping variant it never does as soon as two logins overlap the closing session, whatever
+    the release order -/
+theorem relogin_op_wedged (k : Nat) (order : List Nat) (hk : 2 ≤ k) :
+    lastAnswered (run false {} (reloginSchedule k order)) = false :=
+  relogin_schedule_wedged k order hk
+
+end regctl
+
+/-! ## 7. StartWorkConn addresses on the client (HandleTCPWorkConnection → go-proxyproto) -/
+
+section startwork
+open Frp.Gen.LockOrder
+
+/-- the full clause: nothing the server puts into StartWorkConn kills frpc -/
+def StartWorkSafeFull (fixed : Bool) : Prop :=
+  ∀ (ver : PPVer) (srcGiven srcHasDot : Bool) (src dst : AddrRes),
+    handleStartWork fixed ver srcGiven srcHasDot src dst ≠ .crash
+
+/-- as the code is: frpc dies exactly when a header is to be written (v1 or v2, source given) and one of the two
+    addresses did not resolve -/
+theorem startwork_crash_iff (ver : PPVer) (srcGiven srcHasDot : Bool) (src dst : AddrRes) :
+    handleStartWork false ver srcGiven srcHasDot src dst = .crash ↔
+      srcGiven = true ∧ (ver = .v1 ∨ ver = .v2) ∧ (src = .bad ∨ dst = .bad) := by
+  cases ver <;> cases srcGiven <;> cases srcHasDot <;> cases src <;> cases dst <;> decide
+
+theorem startwork_safe_partial (ver : PPVer) (srcGiven srcHasDot : Bool) (src dst : AddrRes)
+    (h : src ≠ .bad ∧ dst ≠ .bad) : handleStartWork false ver srcGiven srcHasDot src dst ≠ .crash := by
+  intro hc
+  have := (startwork_crash_iff ver srcGiven srcHasDot src dst).mp hc
+  rcases this with ⟨_, _, h1 | h1⟩
+  · exact h.1 h1
+  · exact h.2 h1
+
+theorem startwork_witness : ¬ StartWorkSafeFull false := by
+  intro h
+  exact h .v1 true true .bad .v4 (by decide)
+
+/-- repaired: an unresolved address stays an untyped nil, the header is refused, the work connection closed -/
+theorem startwork_fixed : StartWorkSafeFull true := by
+  intro ver srcGiven srcHasDot src dst
+  cases ver <;> cases srcGiven <;> cases srcHasDot <;> cases src <;> cases dst <;> decide
+
+/-- the repair changes nothing for addresses that resolve -/
+theorem startwork_fixed_agrees (ver : PPVer) (srcGiven srcHasDot : Bool) (src dst : AddrRes)
+    (h : src ≠ .bad ∧ dst ≠ .bad) :
+    handleStartWork true ver srcGiven srcHasDot src dst = handleStartWork false ver srcGiven srcHasDot src dst := by
+  cases src <;> cases dst <;> first | rfl | (exfalso; first | exact h.1 rfl | exact h.2 rfl)
+
+theorem startwork_status : StartWorkSafeFull startWorkAddrIsFixed ↔ startWorkAddrIsFixed = true := by
+  cases h : startWorkAddrIsFixed
+  · simp only [Bool.false_eq_true, iff_false]; exact startwork_witness
+  · simp only [iff_true]; exact startwork_fixed
+
+/-- the model is the code: both results of net.ResolveTCPAddr are stored, and the error is discarded exactly in the
+    unrepaired variant (regenerated from client/proxy/proxy.go) -/
+theorem startwork_resolve_fact :
+    resolveCalls.map Prod.fst = ["srcAddr", "dstAddr"] ∧
+    (resolveCalls.all (fun r => r.2 == !startWorkAddrIsFixed)) = true := by
+  decide +kernel
+
+end startwork
 
 /-! ## 4. The predicate the `crash` engine evaluates on the implementation's observation -/
 
@@ -845,6 +1157,12 @@ example : (srvRun ["Ping"] nilSafeMethods nilTolerantCallees ptrUses { ctls := [
 example : (trun ⟨true, false⟩ {} (tearSchedule "drained" 2)) = ({ chOpen := false, doneOpen := false, inTable := false }, .alive) := by
   decide
 example : accesses.length ≠ 0 := by decide +kernel
+example : Frp.Gen.LockOrder.edges.length ≠ 0 := by decide +kernel
+example : RegCtl.settled (RegCtl.run true {} (RegCtl.reloginSchedule 3 [3, 1, 0, 2] ++ RegCtl.drain (RegCtl.run true {} (RegCtl.reloginSchedule 3 [3, 1, 0, 2])))) = true := by
+  decide
+example : handleStartWork false .v1 true true .bad .v4 = .crash ∧ handleStartWork true .v1 true true .bad .v4 = .closed ∧
+    handleStartWork false .v2 true true .v4 .v6 = .closed ∧ handleStartWork false .v2 true false .v6 .v4 = .hdr ∧
+    handleStartWork false .unset true true .bad .bad = .nohdr ∧ handleStartWork false .v1 false true .bad .bad = .nohdr := by decide
 
 end C16
 end Frp
